@@ -8,6 +8,7 @@
 //   cxs_gmres      side M maxiter tol abstol          A PREC f x0
 //   cxs_fgmres     M maxiter tol abstol               A PREC f x0
 //   cxs_lgmres     side M K maxiter tol abstol        A PREC f x0
+//   cxs_bicgstabl  side L delta convex maxiter tol abstol   A PREC f x0
 //   cxs_idrs       s omega smoothing replacement maxiter tol abstol   A PREC f x0 RAW
 // RAW = the s REAL random vectors (each `n c_1 .. c_n`) the constructor of idrs draws with one thread (mt19937(0), uniform(-1,1));
 // the shadow vector entries are math::constant<complex>(c) = (c, c).  The generator always writes the native stream and the real
@@ -51,6 +52,7 @@ template <> inline complex<vq::Q> sqrt<vq::Q>(const complex<vq::Q> &z) {
 #include <amgcl/solver/gmres.hpp>
 #include <amgcl/solver/fgmres.hpp>
 #include <amgcl/solver/lgmres.hpp>
+#include <amgcl/solver/bicgstabl.hpp>
 #include <random>
 #include <amgcl/solver/idrs.hpp>
 #include <tuple>
@@ -137,9 +139,10 @@ typedef amgcl::solver::gmres<CB> GMRES;
 typedef amgcl::solver::fgmres<CB> FGMRES;
 typedef amgcl::solver::idrs<CB> IDRS;
 typedef amgcl::solver::lgmres<CB> LGMRES;
+typedef amgcl::solver::bicgstabl<CB> BiCGStabL;
 
-struct Prm { int solver = 0; bool left = false, smoothing = false, replacement = false; long maxiter = 0, M = 1, K = 0, s = 1; Q tol, abstol, damping = Q(1), omega; };
-// 0 cg, 1 bicgstab, 2 richardson, 3 gmres, 4 fgmres, 5 idrs, 6 lgmres
+struct Prm { int solver = 0; bool left = false, smoothing = false, replacement = false, convex = true; long maxiter = 0, M = 1, K = 0, s = 1, L = 1; Q tol, abstol, damping = Q(1), omega, delta; };
+// 0 cg, 1 bicgstab, 2 richardson, 3 gmres, 4 fgmres, 5 idrs, 6 lgmres, 7 bicgstabl
 template <class P> static void common(P &q, const Prm &p) { q.maxiter = p.maxiter; q.tol = p.tol; q.abstol = p.abstol; q.ns_search = false; q.verbose = false; }
 static Out run(const Prm &p, const CCall &d) {
     auto sd = p.left ? amgcl::preconditioner::side::left : amgcl::preconditioner::side::right;
@@ -150,10 +153,11 @@ static Out run(const Prm &p, const CCall &d) {
         case 3: { GMRES::params q; common(q, p); q.pside = sd; q.M = (unsigned)p.M; GMRES S(d.n(), q); return call(S, d); }
         case 4: { FGMRES::params q; common(q, p); q.M = (unsigned)p.M; FGMRES S(d.n(), q); return call(S, d); }
         case 5: { IDRS::params q; common(q, p); q.s = (unsigned)p.s; q.omega = p.omega; q.smoothing = p.smoothing; q.replacement = p.replacement; IDRS S(d.n(), q); return call(S, d); }
+        case 7: { BiCGStabL::params q; common(q, p); q.pside = sd; q.L = (int)p.L; q.delta = p.delta; q.convex = p.convex; BiCGStabL S(d.n(), q); return call(S, d); }
         default: { LGMRES::params q; common(q, p); q.pside = sd; q.M = (unsigned)p.M; q.K = (unsigned)p.K; q.always_reset = true; LGMRES S(d.n(), q); return call(S, d); }
     }
 }
-static const char *sname(int s) { static const char *n[] = {"cg", "bicgstab", "richardson", "gmres", "fgmres", "idrs", "lgmres"}; return n[s]; }
+static const char *sname(int s) { static const char *n[] = {"cg", "bicgstab", "richardson", "gmres", "fgmres", "idrs", "lgmres", "bicgstabl"}; return n[s]; }
 
 static bool hermitian(const CDense &D) { for (size_t i = 0; i < D.size(); ++i) for (size_t j = 0; j <= i; ++j) if (!ceq(D[i][j], std::conj(D[j][i]))) return false; return true; }
 // Hermitian, positive real diagonal, strictly diagonally dominant in the 1-norm of (re, im)  =>  positive definite
@@ -168,14 +172,14 @@ static bool same(const cvec &a, const cvec &b) { for (size_t i = 0; i < a.size()
 
 static void oracle(const Prm &p, const CCall &d, const Out &o, Result &r) {
     const long n = d.n(); CDense A = cdense(d.A), PD = d.pdense();
-    const bool normA = p.solver >= 3;
+    const bool normA = p.solver >= 3 && p.solver <= 6;      // gmres, fgmres, idrs, lgmres: std::abs(sqrt(<x,x>)); the others: sqrt(math::norm(<x,x>))
     Q nf = normA ? nrmA(d.f) : nrm1(d.f);
     if (nf < mach_eps()) { r.tag("tiny_rhs"); return; }
-    if (o.thrown) { r.tag("precondition"); if (p.solver != 1 && p.solver != 5) r.fail("only BiCGStab / IDR(s) have preconditions"); return; }
-    if (o.it > p.maxiter) r.fail("iters > maxiter");
+    if (o.thrown) { r.tag("precondition"); if (p.solver != 1 && p.solver != 5 && p.solver != 7) r.fail("only BiCGStab / IDR(s) / BiCGStab(L) have preconditions"); return; }
+    if (o.it > p.maxiter + (p.solver == 7 ? p.L - 1 : 0)) r.fail("iters > maxiter");
     if (p.solver == 5 && p.smoothing) { r.tag("idrs_smoothed_residual_not_compared"); return; }
     cvec tr = resid(A, d.f, o.x);
-    if ((p.solver == 1 || p.solver == 3 || p.solver == 6) && p.left) tr = cmv(PD, tr);
+    if ((p.solver == 1 || p.solver == 3 || p.solver == 6 || p.solver == 7) && p.left) tr = cmv(PD, tr);
     Q truth = (normA ? nrmA(tr) : nrm1(tr)) / nf;
     if (o.res.v != truth.v) r.fail("reported residual != recomputed true residual of the returned x");
     const bool tol0 = p.tol.v == 0 && p.abstol.v == 0;
@@ -242,9 +246,10 @@ static void oracle(const Prm &p, const CCall &d, const Out &o, Result &r) {
 static Result execute(const Toks &t) {
     Cur c(t); const std::string &op = t[0]; Result r; Prm p;
     if (op == "cxs_cg") p.solver = 0; else if (op == "cxs_bicgstab") p.solver = 1; else if (op == "cxs_richardson") p.solver = 2;
-    else if (op == "cxs_gmres") p.solver = 3; else if (op == "cxs_fgmres") p.solver = 4; else if (op == "cxs_idrs") p.solver = 5; else if (op == "cxs_lgmres") p.solver = 6;
+    else if (op == "cxs_gmres") p.solver = 3; else if (op == "cxs_fgmres") p.solver = 4; else if (op == "cxs_idrs") p.solver = 5; else if (op == "cxs_lgmres") p.solver = 6; else if (op == "cxs_bicgstabl") p.solver = 7;
     else { r.out = "bad-op"; return r; }
-    if (p.solver == 1 || p.solver == 3 || p.solver == 6) p.left = pside(c);
+    if (p.solver == 1 || p.solver == 3 || p.solver == 6 || p.solver == 7) p.left = pside(c);
+    if (p.solver == 7) { p.L = pnat(c); if (p.L < 1) throw bad_input("L"); p.delta = pnonneg(c); p.convex = pbool(c); }
     if (p.solver == 2) p.damping = pnonneg(c);
     if (p.solver == 3 || p.solver == 4 || p.solver == 6) { p.M = pnat(c); if (p.M < 1) throw bad_input("M"); }
     if (p.solver == 6) p.K = pnat(c);
@@ -259,7 +264,8 @@ static Result execute(const Toks &t) {
     r.out = show(o);
     bool cplx = false; for (auto &z : d.A.val) if (z.imag().v != 0) cplx = true;
     r.nontrivial = !o.thrown && o.it >= 2 && cplx;
-    r.tag(sname(p.solver)); if (p.solver == 1 || p.solver == 3 || p.solver == 6) r.tag(p.left ? "left" : "right");
+    r.tag(sname(p.solver)); if (p.solver == 1 || p.solver == 3 || p.solver == 6 || p.solver == 7) r.tag(p.left ? "left" : "right");
+    if (p.solver == 7) { r.tag("L" + std::to_string(p.L)); r.tag(p.convex ? "convex" : "non_convex"); if (p.delta.v != 0) r.tag("delta_nz"); }
     if (p.solver == 5) { if (p.smoothing) r.tag("smoothing"); if (p.replacement) r.tag("replacement"); if (p.omega.v != 0) r.tag("omega_nz"); }
     if (!o.thrown) r.tag("it" + std::to_string(o.it));
     r.tag(d.pk == 0 ? "prec_id" : d.pk == 1 ? "prec_diag" : "prec_mat");
@@ -324,15 +330,18 @@ static void generate(Rng &rng, const Opts &o, std::vector<std::string> &lines) {
     lines.push_back("cxs_idrs 1 0 0 0 2 0 0 2 2 1 0 1 0 1 1 1 0 id 2 1 0 1 0 2 0 0 0 0 1 1/2");              // raw vector of wrong size
     lines.push_back("cxs_idrs 3 0 0 0 2 0 0 2 2 1 0 1 0 1 1 1 0 id 2 1 0 1 0 2 0 0 0 0 2 1 1 2 1 1 2 1 1");  // s > n
     lines.push_back("cxs_lgmres left 0 1 2 0 0 1 1 1 0 1 0 id 1 1 0 1 0 0");                     // M = 0
+    lines.push_back("cxs_bicgstabl left 0 0 1 2 0 0 1 1 1 0 1 0 id 1 1 0 1 0 0");                // L = 0
     const long nmax = o.thorough() ? 8 : 6;
     for (long k = 0; k < N; ++k) {
-        Line l; int which = (int)rng.range(0, 15); long n = rng.range(1, nmax);
+        Line l; int which = (int)rng.range(0, 18); long n = rng.range(1, nmax);
         if (which < 3) { l << "cxs_cg" << rng.range(0, 4); put_tols(rng, l); put_case(rng, l, 0, n); }
         else if (which < 6) { l << "cxs_bicgstab" << (rng.coin() ? "left" : "right") << rng.range(0, 4); put_tols(rng, l); put_case(rng, l, 1, n); }
         else if (which < 7) { static const std::vector<Q> w = { Q(1), Q::frac(1, 2), Q::frac(3, 4), Q::frac(5, 4) }; l << "cxs_richardson" << rng.pick(w) << rng.range(0, 4); put_tols(rng, l); put_case(rng, l, 2, n); }
         else if (which < 10) { if (n > 5) n = 5; l << "cxs_gmres" << (rng.coin() ? "left" : "right") << rng.range(1, 4) << rng.range(0, 4); put_tols(rng, l); put_case(rng, l, 3, n); }
         else if (which < 12) { if (n > 5) n = 5; l << "cxs_fgmres" << rng.range(1, 4) << rng.range(0, 4); put_tols(rng, l); put_case(rng, l, 4, n); }
         else if (which < 13) { if (n > 5) n = 5; l << "cxs_lgmres" << (rng.coin() ? "left" : "right") << rng.range(1, 3) << rng.range(0, 2) << rng.range(0, 4); put_tols(rng, l); put_case(rng, l, 6, n); }
+        else if (which >= 15) { if (n > 5) n = 5; static const std::vector<Q> dl = { Q(0), Q(0), Q::frac(1, 100), Q::frac(1, 2) }; long L = rng.range(1, 3);
+            l << "cxs_bicgstabl" << (rng.coin() ? "left" : "right") << L << rng.pick(dl) << rng.coin(2, 3) << rng.range(0, 2) * L + rng.range(0, 1); put_tols(rng, l); put_case(rng, l, 7, n); }
         else { if (n > 5) n = 5; if (n < 2) n = 2; long s = rng.range(1, std::min<long>(2, n)); static const std::vector<Q> om = { Q(0), Q(0), Q::frac(7, 10), Q::frac(9, 10) };
             bool plain = rng.coin(); l << "cxs_idrs" << s << (plain ? Q(0) : rng.pick(om)) << (plain ? false : rng.coin(1, 3)) << (plain ? false : rng.coin(1, 3));
             if (plain) { l << (s + 1) * rng.range(1, 2) << Q(0) << Q(0); } else { l << rng.range(0, 5); put_tols(rng, l); }
